@@ -232,10 +232,10 @@ func fixtureMain(args []string) error {
 		var cg cgroup.Cgroup
 		if strings.HasPrefix(c.Reader, "v2") {
 			setType(2)
-			cg, err = cgroup.OpenExisting("../.."+d, &cgroup.Controllers{CPU: true, Memory: true, Pids: true})
+			cg, err = cgroup.OpenExisting("../../.."+d, &cgroup.Controllers{CPU: true, Memory: true, Pids: true})
 		} else {
 			setType(1)
-			cg, err = cgroup.OpenExisting("../../.."+d, &cgroup.Controllers{CPUAcct: true, Memory: true})
+			cg, err = cgroup.OpenExisting("../../../.."+d, &cgroup.Controllers{CPUAcct: true, Memory: true})
 		}
 		if err != nil {
 			return fmt.Errorf("fixture %d: cannot open %s as a group: %w", c.Id, d, err)
